@@ -1082,6 +1082,10 @@ func (v *Decoder) walkNode(ectx evaluationContext, n *html.Node) error {
 			datatypeValue, ok := resolveIRI(ectx, localPrefixMappings, *attrDatatype, nil, localDefaultVocabulary, false, true).(rdf.IRI)
 			if !ok {
 				// TODO warning
+			} else if datatypeValue == rdfiri.LangString_Datatype || datatypeValue == rdfiri.Base+"dirLangString" {
+				// TODO warning
+				// a (directional) language-tagged string cannot be requested through @datatype (the literal
+				// would have no tag); the attribute is treated like an empty @datatype: a plain literal
 			} else {
 				datatypeIRI = datatypeValue
 			}
